@@ -16,7 +16,7 @@ def run(ctx):
                 "SqliteRunLifecycleLock; distinct key = (scenario kind, idle_timeout, store mode, #releases, #reloads, "
                 "#idle marks, #sends, outcome, findings)")
     ctx.prove()
-    run_inprocess(ctx, "C36", ctx.n(60, 900), THEOREMS, need=(("undisturbed_idle_periods", 10),))
+    run_inprocess(ctx, "C36", ctx.n(66, 4000), THEOREMS, need=(("undisturbed_idle_periods", 10),))
 
     # ---- DBOS stack
     from suites import lifecycle as L
@@ -24,7 +24,7 @@ def run(ctx):
     d = os.path.join(ctx.scratch, "dbos")
     os.makedirs(d, exist_ok=True)
     never, released_with_row = 0, 0
-    n = ctx.n(3, 12)
+    n = ctx.n(3, 24)
     for k in range(n):
         tau = rng.choice([0.125, 0.5, 1.0, 2.0])
         idle_for = tau * rng.choice([3, 10, 40]) + 1.0
